@@ -420,7 +420,7 @@ def parseElement (s : Stream) : TM Stream := do
 def parseProlog : TM Stream := do
   let s := Stream.new txt
   let s ← lift (if s.startsWith Lit.bom then s.advance 3 else .ok s)
-  let s ← lift (if s.startsWith Lit.xmlDecl then parseDeclaration T txt s else .ok s)
+  let s ← lift (if s.startsWithXmlDecl T then parseDeclaration T txt s else .ok s)
   let s ← parseMisc T txt (s.rest.length + 1) s
   pure (s.skipSpaces T)
 
